@@ -6,7 +6,7 @@ func TestC02(t *testing.T) {
 	runProp(t, "C02", func(e *env) {
 		e.coldStage(1, 31)
 		s := &c02State{r: e.r, prim: primedBuffer()}
-		e.feed(feedOpts{counts: 2, shortlexQ: 4, shortlexT: 6, sweepQ: 800, sweepT: 40000, nestQ: 150, nestT: 4000, indentQ: 40, indentT: 1500, numShapes: 4, strRuns: true, tokenSweepQ: 60, templateSweep: true, amplify: true,
+		e.feed(feedOpts{counts: 2, streams: true, shortlexQ: 4, shortlexT: 6, sweepQ: 800, sweepT: 40000, nestQ: 150, nestT: 4000, indentQ: 40, indentT: 1500, numShapes: 4, strRuns: true, tokenSweepQ: 60, templateSweep: true, amplify: true,
 			mutQ: 60000, mutT: 2000000, nextByte: true, alignment: true, boundaries: true}, s.input)
 	})
 }
